@@ -83,7 +83,8 @@ def enc_custom(h, palette_rgba, pixels, over=None):
             + b"PPAL" + struct.pack("<I", 1048) + b"head" + struct.pack("<II", 4, 1)
             + b"data" + struct.pack("<I", 1024) + pal
             + b"data" + struct.pack("<I", (32 * h) & 0xFFFFFFFF) + pixels)
-    out = b"PBMP" + struct.pack("<I", len(body) & 0xFFFFFFFF) + body
+    # the length the game's files carry for the outer section is 28 less than the number of bytes that follow it
+    out = b"PBMP" + struct.pack("<I", (1068 + 32 * h) & 0xFFFFFFFF) + body
     if over:
         for k, v in over.items(): out = subst_ts(out, k, v)
     return out
